@@ -10,8 +10,8 @@ Open Scope Z_scope.
 Lemma rules_ok_holds : rules_ok = true.  Proof. vm_compute. reflexivity. Qed.
 Lemma emits_ok_holds : emits_ok = true.  Proof. vm_compute. reflexivity. Qed.
 
-Lemma in_all_acts a : a <> AExtend -> In a all_acts.
-Proof. destruct a; cbn; intros H; try tauto; congruence. Qed.
+Lemma in_all_acts a : a <> AExtend -> a <> ALeave -> In a all_acts.
+Proof. destruct a; cbn; intros H H'; try tauto; congruence. Qed.
 
 Section Rules.
 Hypothesis ROK : rules_ok = true.
@@ -148,8 +148,8 @@ Proof.
   destruct (decide (at_pre a) (at_call a) (o_ok (at_oracle a))) eqn:Hd.
   - assert (Hin : In (hc_action (at_call a)) [APass; AFold; ACheck; ACall; AAllin; ABet; ARaise]).
     { unfold emitting in Hea. unfold valid in Ha.
-      destruct (hc_action (at_call a)) eqn:E; cbn in Hea; try discriminate; try (cbn; auto 10; fail).
-      cbn in Ha. intuition discriminate. }
+      destruct (hc_action (at_call a)) eqn:E; cbn in Hea; try discriminate; try (cbn; auto 10; fail);
+      cbn in Ha; intuition discriminate. }
     pose proof (accepted_event _ _ _ v He Hin Hd) as Hev.
     destruct (astep (at_pre a) (at_call a) (at_oracle a) v) as [[v1 ev] vd]. cbn in Hev. subst ev.
     specialize (IH v1 Ht Het). destruct (run v1 t) as [v2 ev2]. cbn in *. rewrite IH. reflexivity.
